@@ -9,6 +9,13 @@ from vlib.report import REPO
 W = 16
 SKIP = {'leon3mp.edf.zip', 'osfbm.edf.zip'}
 SUB = {'edif': 'EDIF_netlists', 'verilog': 'verilog_netlists', 'eblif': 'eblif_netlists'}
+HIER_BOUNDS = {'libraries': '2-4 (Verilog: hdi_primitives + work)', 'leaf_definitions': '1-3 with 1-3 ports of width 1-4', 'non_leaf_definitions': '1-5',
+               'ports_per_definition': '0-3 of width 1-4, base 0-3 (Verilog: base 0, downto)', 'cables_per_definition': '0-5 of width 1-4, base 0-7 (+ port cables and \\<const0>/\\<const1> in Verilog)',
+               'instances_per_definition': '0-4 (+ the ones added to give Verilog designs a single root)', 'hierarchy_depth': 'up to 6',
+               'connection_probability_per_pin': 0.75, 'names': '25% from an adversarial alphabet (case-only siblings, non-alphabetic first character, brackets, dots, slashes, spaces, escaped identifiers)',
+               'edif_properties': '0-3 per instance: string / integer / boolean, names that need a rename', 'verilog_data': 'instance parameters and attributes, module parameters and attributes, wire attributes, 0-2 assigns per module'}
+FLAT_BOUNDS = {'top_ports': '1-4 of width 1-3', 'black_box_models': '1-3 with 1-4 ports of width 1-3, 70% declared', 'nets': '3-8 scalar + 0-2 buses of width 2-4 + port nets',
+               'instances': '2-7 (.subckt 5 : .gate 1 : .names 3 : .latch 2), 70% with .cname, 0-2 .attr, 0-2 .param', 'conn_statements': '0-2', 'names': '30% from an adversarial alphabet ($ . : ~ ^ \\\\)'}
 
 
 def bundled(kind, max_zip_bytes):
@@ -21,7 +28,7 @@ def bundled(kind, max_zip_bytes):
     return out
 
 
-def run(rep, pid, script, tier, seed, spec, rule, extra=None):
+def run(rep, pid, script, tier, seed, spec, rule, extra=None, gen_bounds=None):
     """spec[tier] = {'designs': n, 'styles': k, 'files': {kind: max_zip_bytes}, 'limit': s, 'file_limit': s}"""
     sp = spec[tier]
     seeds = [seed * 1000003 + i for i in range(sp['designs'])]
@@ -48,7 +55,7 @@ def run(rep, pid, script, tier, seed, spec, rule, extra=None):
     rep.B['bounds'] = {'designs': sp['designs'], 'styles_per_design': sp.get('styles', 1), 'bundled_files': len(files),
                        'bundled_max_zip_bytes': sp.get('files', {}), 'per_case_time_limit_s': sp.get('limit', 20),
                        'per_file_time_limit_s': sp.get('file_limit', 60), 'workers': W, 'seed': seed,
-                       'skipped_by_name': sorted(SKIP), **(sp.get('note') or {})}
+                       'skipped_by_name': sorted(SKIP), 'generator': gen_bounds or {}, **(sp.get('note') or {})}
     report(rep, pid, fails)
     return fails
 
